@@ -556,8 +556,12 @@ async fn run_inner(w: &Workload, chooser: &mut Chooser, seed: u64) -> Obs {
     obs.trace_hash = th;
     if w.forced.is_some() {
         let f = w.forced.unwrap();
-        if obs.init_tsn[0] != Some(f[1]) || obs.init_tsn[1] != Some(f[3]) {
-            obs.machinery_error = Some(format!("forced initial TSNs not honoured: wanted {:?}/{:?}, saw {:?}", f[1], f[3], obs.init_tsn));
+        // In the fault-free history the four forced values must land on the two tags and two initial
+        // TSNs. Under faults another random_u32() consumer (e.g. a heartbeat nonce while setup chunks
+        // are being retransmitted) may take one of them first: the history is still deterministic
+        // and valid, only its TSN space differs, so that is not an error.
+        if chooser.deviations.is_empty() && (obs.init_tsn[0] != Some(f[1]) || obs.init_tsn[1] != Some(f[3])) {
+            obs.machinery_error = Some(format!("forced initial TSNs not honoured in the fault-free run: wanted {:?}/{:?}, saw {:?}", f[1], f[3], obs.init_tsn));
         }
     }
     rustrtc::verif::clear_forced_u32();
